@@ -10,7 +10,9 @@ from .c04 import dom
 
 EPS = Fraction(2.220446049250313e-16)
 MSGI, MSGP, MSGF = 'ommx.v1.Instance', 'ommx.v1.ParametricInstance', 'ommx.v1.Function'
-VARS = [1, 4, 9]    # non-contiguous variable ids; parameter ids must start above 9
+VARS = [1, 4, 9]    # non-contiguous variable ids (default listing); see VAR_ORDERS
+# listings of the decision variables: ascending, descending and one where (last listed id + 1) is itself a defined id
+VAR_ORDERS = [[1, 4, 9], [9, 4, 1], [4, 9, 3]]
 
 
 def fn_of_kind(chk, P, kind, pre, mode='signed', ids=None):
@@ -42,7 +44,7 @@ def build(chk):
     upm = eng.method('uniform_penalty_method', first_param='v1::Instance')
     B, rd = Build(chk), Rd(chk)
     KINDS = ['unset', 'constant', 'linear1', 'linear2', 'quadratic']
-    chk.bounds = {'instance': 'variables 1,4,9; 0-2 active and 0-1 previously removed constraints; constraint functions: ' + ', '.join(KINDS) +
+    chk.bounds = {'instance': 'variables {1,4,9} listed ascending or descending, or {3,4,9} listed as 4,9,3; 0-2 active and 0-1 previously removed constraints; constraint functions: ' + ', '.join(KINDS) +
                   '; objective absent / linear / quadratic; one dependency entry; sense symbolic', 'coefficients': 'objective: 0 or magnitude in [2^-4, 2^4]; constraint functions: positive in [2^-4, 2^4]',
                   'ids in functions': 'three id patterns per constraint (distinct / repeated / swapped)', 'sense and equalities': 'fully symbolic 32-bit integers'}
     chk.assumptions += ['R-model; objective compared coefficient-wise up to 64*2^16*EPSILON', 'the sum of squared violations ranges over the active constraints of the input '
@@ -53,12 +55,13 @@ def build(chk):
 
         def h(P):
             sense = P.bv('sense', bits=32)          # carried over untouched: fully symbolic
-            idsets = [[1, 4], [4, 4], [9, 1]][P.choose(3)]
-            obj = fn_of_kind(chk, P, objkind, 'o', 'signed', [4, 9])
+            VARS = VAR_ORDERS[P.choose(len(VAR_ORDERS))]
+            idsets = [[VARS[0], VARS[1]], [VARS[1], VARS[1]], [VARS[2], VARS[0]]][P.choose(3)]
+            obj = fn_of_kind(chk, P, objkind, 'o', 'signed', [VARS[1], VARS[2]])
             cons = [Con(20 + 5 * i, P.bv(f'eq{i}', bits=32), fn_of_kind(chk, P, k, f'g{i}', 'positive', idsets if i == 0 else idsets[::-1]),
                         name=f'c{i}', subscripts=[i]) for i, k in enumerate(kinds)]
-            rems = [Rem(Con(7, LE, fn_of_kind(chk, P, 'linear1', 'r', 'signed', [9]), name='old'), reason='earlier', params=[('a', 'b')]) for _ in range(nrem)]
-            dep = fn_of_kind(chk, P, 'linear1', 'd', 'positive', [1])
+            rems = [Rem(Con(7, LE, fn_of_kind(chk, P, 'linear1', 'r', 'signed', [VARS[2]]), name='old'), reason='earlier', params=[('a', 'b')]) for _ in range(nrem)]
+            dep = fn_of_kind(chk, P, 'linear1', 'd', 'positive', [VARS[0]])
             spec = Inst(sense=sense, objective=obj, vars=[Var(i, 3) for i in VARS], cons=cons, removed=rems, deps=[(30, dep)])
             inst = B.instance(spec)
             orig = rd.instance(B.instance(spec))
